@@ -159,6 +159,7 @@ func main() {
 			exit = 1
 		}
 	}
+	flushRecordedAnchors()
 	os.Exit(exit)
 }
 
